@@ -52,7 +52,7 @@ def _parenthesize(parentheses: str, elements) -> str:
 def _try_sort(iterable):
     try:
         return sorted(iterable)
-    except TypeError:
+    except (TypeError, ArithmeticError):  # ArithmeticError: Decimal compared with float nan
         return iterable
 
 
